@@ -248,7 +248,8 @@ def error_matching(ctx):
         raise AnchorMissing('receive thread not found')
     ctx.analysed(fi)
     ok = False
-    for n in body_walk(fi.node):
+    from sa.lib import deep_nodes
+    for n in deep_nodes(m, fi):
         if isinstance(n, ast.Subscript) and src(n.value) == 'REQUEST2REPLY' and 'len(ERRORPREFIX)' in src(n.slice) and 'action[' in src(n.slice):
             guard = any(isinstance(a, ast.If) and 'startswith(ERRORPREFIX)' in src(a.test) for a in ancestors(n))
             ok = guard
